@@ -61,10 +61,7 @@ func runProg(en Engine, prog []Call) []Resp {
 	st, cleanup := en.mk()
 	defer cleanup()
 	e := NewEmu(st)
-	defer func() {
-		defer func() { _ = recover() }()
-		e.v.Close()
-	}()
+	defer closeEmu(e)
 	obs := make([]Resp, 0, len(prog))
 	for i := range prog {
 		obs = append(obs, e.Exec(prog[i]))
@@ -121,6 +118,13 @@ func main() {
 		fmt.Fprintln(os.Stderr, "missing -out")
 		os.Exit(2)
 	}
+	if *prop == "race" {
+		log.SetOutput(io.Discard)
+		secs := 6
+		fmt.Sscanf(*tier, "%d", &secs)
+		raceMain(secs, *slice)
+		return
+	}
 	if *prop == "enumworker" {
 		log.SetOutput(io.Discard)
 		tmpRoot = os.TempDir()
@@ -174,6 +178,8 @@ func main() {
 		return
 	case "C08":
 		genC08(*out, *tier, rng)
+	case "C20":
+		genC20(*out, *tier, rng)
 	case "C18":
 		genC18(*out, *tier, rng)
 	case "C16":
